@@ -193,7 +193,7 @@ mod imp {
             RunFailure::Deadlock(m) => viol(seed, sc, "deadlock".into(), format!("{ctx}: {m}")),
             RunFailure::StepBound(m) => viol(seed, sc, "no_progress_within_step_bound".into(), format!("{ctx}: {m}")),
             RunFailure::Panic(loc, m) => {
-                if loc.starts_with("/repo/") {
+                if crate::harness::is_decoder_location(&loc) && !loc.contains("shuttle") {
                     viol(seed, sc, crate::checks::panic_class(&loc, &m), format!("{ctx}: decoder panicked at {loc}: {m}"))
                 } else {
                     panic!("harness/shuttle panic at {loc}: {m}")
